@@ -96,6 +96,21 @@ func (s envSetting) apply() (restore func()) {
 
 // withEnvSweep appends the env-sweep family if any family opted in.
 func withEnvSweep(cfg *Config, fams []Family) []Family {
+	// Early families move up behind the leading cold-start family
+	{
+		var head, early, rest []Family
+		for i, f := range fams {
+			switch {
+			case i == 0 && f.Serial && f.Name == "cold-start":
+				head = append(head, f)
+			case f.Early && f.Serial:
+				early = append(early, f)
+			default:
+				rest = append(rest, f)
+			}
+		}
+		fams = append(append(head, early...), rest...)
+	}
 	var src []Family
 	for _, f := range fams {
 		if f.Env > 0 && !f.Serial && f.N > 0 {
